@@ -768,6 +768,24 @@ class Gen:
             vals.append(qlit(e.value))
         self.out.append(f"(* {fname}:{hits[0].lineno} {qual}: {target} *)\nDefinition {coqname} : list Q := [" + "; ".join(vals) + "].")
 
+    def default_arg(self, fname, qual, arg, coqname):
+        node = self.find(fname, qual)
+        a = node.args
+        names = [x.arg for x in a.args]
+        defaults = dict(zip(names[len(names) - len(a.defaults):], a.defaults))
+        for x, dv in zip(a.kwonlyargs, a.kw_defaults):
+            defaults[x.arg] = dv
+        if arg not in defaults or not isinstance(defaults[arg], ast.Constant) or \
+                not isinstance(defaults[arg].value, (int, float)) or isinstance(defaults[arg].value, bool):
+            raise Unsupported(f"{qual}: no numeric default for {arg}")
+        self.out.append(f"(* {fname}:{node.lineno} {qual}: default {arg} *)\nDefinition {coqname} : Q := {qlit(defaults[arg].value)}.")
+
+    def same_ast(self, fname, qual1, qual2):
+        a, b = self.find(fname, qual1), self.find(fname, qual2)
+        if ast.dump(ast.Module(body=a.body, type_ignores=[])) != ast.dump(ast.Module(body=b.body, type_ignores=[])):
+            raise Unsupported(f"{qual1} and {qual2} are no longer identical")
+        self.out.append(f"(* obligation checked by the translator: {qual1} and {qual2} have identical bodies *)")
+
     def raw(self, text):
         self.out.append(text)
 
@@ -785,6 +803,21 @@ def build_spec(g):
     # ---- output time conversion (output.py) ----
     g.func("output.py", "OutputManager.hours_to_month", coqname="hours_to_month")
     g.func("output.py", "OutputManager.ghe_time_convert", coqname="ghe_time_convert", rettype="tuple")
+    # ---- search and sizing leaves ----
+    g.func("utilities.py", "sign")
+    g.func("utilities.py", "check_bracket", rettype="bool")
+    g.func("utilities.py", "length_of_side")
+    g.assign_expr("search_routines.py", "Bisection1D.search", "c_idx", "midpoint", ["x_l_idx", "x_r_idx"])
+    g.default_arg("search_routines.py", "Bisection1D.__init__", "max_iter", "max_iter_1d")
+    g.default_arg("search_routines.py", "RowWiseModifiedBisectionSearch.__init__", "max_iter", "max_iter_rowwise")
+    g.func("ground_heat_exchangers.py", "BaseGHE.cost", coqname="cost",
+           extra_strict=["self.sim_params.max_EFT_allowable", "self.sim_params.min_EFT_allowable"])
+    g.assign_expr("utilities.py", "solve_root", "kg_minus_sign", "root_sign", ["minus"])
+    g.assign_expr("utilities.py", "solve_root", "kg_plus_sign", "root_sign_plus", ["plus"])
+    g.func("search_routines.py", "Bisection1D.retrieve_flow", coqname="retrieve_flow", rettype="tuple", raises=True,
+           ptypes={"self_flow_type": "FlowConfigType", "coordinates": "list (Q * Q)"},
+           extra_strict=["self.flow_type", "self.V_flow"])
+    g.same_ast("search_routines.py", "Bisection1D.retrieve_flow", "RowWiseModifiedBisectionSearch.retrieve_flow")
 
 
 def main():
